@@ -16,7 +16,8 @@ Theorem C18_partial_persistence : forall f now s o s' r, step f now s o = SR s' 
     Forall2 (fun x y => a_addr y = a_addr x /\ a_ins y = a_ins x /\ a_first y <= a_first x) (s_accounts s) l.
 Proof.
   intros f now s o s' r H. destruct (step_acc_mono f now s o s' r H) as [l [F [l2 E]]].
-  exists l, l2. split; [exact E|]. eapply Forall2_impl; [|exact F]. intros x y [K L]. unfold acc_key in K. inversion K. auto.
+  exists l, l2. split; [exact E|]. clear -F. induction F as [|x y r r' [K L] F IH]; constructor; [|exact IH].
+  unfold acc_key in K. inversion K. auto.
 Qed.
 Print Assumptions C18_partial_persistence.
 
@@ -46,7 +47,7 @@ Proof.
   exists [(10, {| o_in := ICreate [{| p_src := "world"; p_dst := "bob"; p_asset := "USD"; p_amt := 5 |}] (Some 50) "" [] [] false; o_ik := ""; o_dry := false |});
           (20, {| o_in := IRevert 1 false false; o_ik := ""; o_dry := false |})].
   exists "bob". vm_compute. split.
-  - eexists. split; [right; left; reflexivity|]. split; [reflexivity|]. right; left; reflexivity.
+  - eexists. split; [right; left; reflexivity|]. split; [reflexivity|]. left; reflexivity.
   - eexists. split; reflexivity.
 Qed.
 Print Assumptions C18_refuted_revert.
